@@ -85,12 +85,17 @@ class H:
         self.outstanding = []    # unfired Deferreds returned by before-triggers
         self.firing = False
         self.dup_removal = False
+        self.refired = False
         self.flags = set()
         self.removals = []
         self.raised = False
         self.reactor = reactor_class()()
 
     def flag(self, sig, detail):
+        if self.refired and sig not in ("SystemEvent:trigger-ran-more-than-once", "SystemEvent:removed-trigger-ran"):
+            # the statement speaks about one firing; when the event is fired again while the
+            # first firing still waits, only "at most once" and "removed triggers stay removed" are judged
+            return
         if self.dup_removal:
             sig = DUP_SIG
         if not any(s == sig for s, _ in self.bad):
@@ -208,6 +213,10 @@ class H:
                 c = ch.choose(1 + len(cands), "remove-while-waiting")
                 if c:
                     self.remove(cands[c - 1], "while-waiting")
+                if not self.refired and ch.choose(2, "fire-again-while-waiting"):
+                    self.refired = True
+                    self.flags.add("fired-again-while-waiting")
+                    reactor.fireSystemEvent("custom")
                 d = self.outstanding[ch.choose(len(self.outstanding), "which-deferred", free=True)]
                 ok = ch.choose(2, "deferred-outcome", free=True) == 0
                 self.outstanding.remove(d)
@@ -225,7 +234,7 @@ class H:
         except Boom as e:
             self.flag("SystemEvent:trigger-exception-propagated-to-caller", self.describe())
         missing = [r for r in self.regs if r.alive and not r.ran]
-        if missing and not any(s.startswith("SystemEvent:trigger-exception") for s, _ in self.bad):
+        if missing and not self.refired and not any(s.startswith("SystemEvent:trigger-exception") for s, _ in self.bad):
             kind = "after-another-trigger-raised" if self.raised else "although-none-raised"
             self.flag("SystemEvent:remaining-%s-trigger-not-run-%s" % (missing[0].phase, kind), self.describe())
         if self.raised:
